@@ -128,6 +128,8 @@ def _collect(proc, job: dict) -> dict:
     from vp.core import HarnessError  # noqa: PLC0415
 
     out, err = proc.communicate(json.dumps(job))
+    if err and os.environ.get("VERIF_PROFILE"):
+        sys.stderr.write(err)
     result = None
     for line in out.splitlines():
         if line.startswith("C16-RESULT "):
